@@ -28,7 +28,7 @@ EXPRS = ['n', 'n + 1', 'a', 'h1', 'str(h1)', 'len(h2)', 'undefined_name', '1/0',
          'G_INT', 'g_helper(n)', 'self', 'h2[0]', "{'k': n}", 'err', 'ERRS[-1]', 'ERRS[0]', 'ERRS[0]', 'z1', '[z1]']
 CONDS = [None, None, 'True', 'n >= 0', 'n > 100', '1/0', 'raise_base()', 'undefined', 'h1']
 ALL_KINDS = (values.SCALAR_KINDS + values.CONTAINER_KINDS + values.NODICT_KINDS + values.HOSTILE_KINDS +
-             ['mailbox', 'gen', 'map', 'zip', 'list_iter', 'mailbox', 'lru'] * 4)
+             ['mailbox', 'gen', 'map', 'zip', 'list_iter', 'mailbox', 'lru', 'slots_hook'] * 4)
 
 
 class PluginBase(BaseException):
@@ -199,6 +199,8 @@ class C01(Prop):
                     rest.append([nd['k'], type(e).__name__])
             if nd['k'] == 'lru':
                 rest.append(['lru', list(v.used)])
+            if nd['k'] == 'slots_hook':
+                rest.append(['slots_hook', list(v.asked)])
         res.log.append(['final-iterators', rest])
         return res, handler, plugs, push
 
